@@ -253,10 +253,114 @@ def error_eq_ignores_methods():
     return 'bool', cbool(ok)
 
 
+# ------------------------------------------------------------------ activation / fan-out shapes (concurrent clauses)
+def _disp_func(name):
+    return find_func(find_class(parse(DI), 'Dispatcher'), name)
+
+
+def _is_registration(call):
+    """self.subscribe(conn, ...) or self._active_connections.add(conn)"""
+    f = call.func
+    if is_self_attr(f, 'subscribe'):
+        return 'subscribe'
+    if isinstance(f, ast.Attribute) and f.attr == 'add' and is_self_attr(f.value, '_active_connections'):
+        return 'add'
+    return None
+
+
+def _snapshot_loop(f):
+    """the top-level `for modulename, pname in modules:` of handle_activate and its index in the body"""
+    loops = [(i, n) for i, n in enumerate(f.body) if isinstance(n, ast.For)]
+    if len(loops) != 1:
+        raise Shape('handle_activate: expected exactly one top-level for loop')
+    return loops[0]
+
+
+def activate_registers_first():
+    """handle_activate: the connection is registered (self.subscribe(conn, specifier) in the `if specifier:` branch,
+    self._active_connections.add(conn) in its else branch) in a statement that precedes the loop sending the initial
+    values; there is no other registration"""
+    f = _disp_func('handle_activate')
+    li, loop = _snapshot_loop(f)
+    regs = [(c, _is_registration(c)) for c in walk_type(f, ast.Call) if _is_registration(c)]
+    if sorted(k for _, k in regs) != ['add', 'subscribe']:
+        return 'bool', 'false'
+    ok = False
+    for i, n in enumerate(f.body[:li]):
+        if isinstance(n, ast.If) and _norm(n.test) == 'specifier':
+            in_body = [k for c, k in regs if any(c is x for b in n.body for x in ast.walk(b))]
+            in_else = [k for c, k in regs if any(c is x for b in n.orelse for x in ast.walk(b))]
+            # neither registration may sit inside a nested loop / function of the branch
+            ok = in_body == ['subscribe'] and in_else == ['add']
+    return 'bool', cbool(ok)
+
+
+def snapshot_in_updateLock():
+    """handle_activate: the loop body is `moduleobj = self.secnode.modules.get(modulename, None)` followed by one
+    `with moduleobj.updateLock:`; every make_update / conn.send_reply of handle_activate is inside that with"""
+    f = _disp_func('handle_activate')
+    _, loop = _snapshot_loop(f)
+    body = [n for n in loop.body if not (isinstance(n, ast.Expr) and isinstance(n.value, ast.Constant))]
+    if len(body) != 2 or not isinstance(body[0], ast.Assign) or not isinstance(body[1], ast.With):
+        return 'bool', 'false'
+    if _norm(body[0]) != 'moduleobj=self.secnode.modules.getmodulename,None':
+        return 'bool', 'false'
+    w = body[1]
+    if [_norm(i.context_expr) for i in w.items] != ['moduleobj.updateLock']:
+        return 'bool', 'false'
+    inside = {id(x) for x in ast.walk(w)}
+
+    def is_send(c):
+        return isinstance(c.func, ast.Attribute) and c.func.attr == 'send_reply'
+
+    def is_make(c):
+        return isinstance(c.func, ast.Name) and c.func.id == 'make_update'
+    calls = [c for c in walk_type(f, ast.Call) if is_send(c) or is_make(c)]
+    ok = bool(calls) and all(id(c) in inside for c in calls) \
+        and any(is_send(c) for c in calls) and any(is_make(c) for c in calls)
+    # the value is built in the argument of send_reply (no message is kept across the end of the with)
+    ok = ok and all(len(c.args) == 1 and isinstance(c.args[0], ast.Call) and is_make(c.args[0])
+                    for c in calls if is_send(c))
+    return 'bool', cbool(ok)
+
+
+def broadcast_iterates_private_copy():
+    """broadcast_event (not reallyall): `listeners` is assigned once, from `<set>.copy()`, extended only by
+    listeners.update(...), and `for conn in listeners:` iterates that name -- never a live attribute"""
+    f = _disp_func('broadcast_event')
+    ifs = [n for n in f.body if isinstance(n, ast.If) and _norm(n.test) == 'reallyall']
+    loops = [n for n in f.body if isinstance(n, ast.For)]
+    if len(ifs) != 1 or len(loops) != 1 or not ifs[0].orelse:
+        return 'bool', 'false'
+    loop = loops[0]
+    if not (isinstance(loop.iter, ast.Name) and loop.iter.id == 'listeners'):
+        return 'bool', 'false'
+    if [_norm(n) for n in loop.body] != ['conn.send_replymsg']:
+        return 'bool', 'false'
+    assigns = []
+    for b in ifs[0].orelse:
+        for a in walk_type(b, (ast.Assign, ast.AugAssign, ast.AnnAssign, ast.NamedExpr)):
+            tg = a.targets if isinstance(a, ast.Assign) else [a.target]
+            if any(isinstance(t, ast.Name) and t.id == 'listeners' for t in tg):
+                assigns.append(a)
+    if len(assigns) != 1 or not isinstance(assigns[0], ast.Assign):
+        return 'bool', 'false'
+    v = assigns[0].value
+    fresh = isinstance(v, ast.Call) and isinstance(v.func, ast.Attribute) and v.func.attr == 'copy' and not v.args
+    # the single assignment is a statement of the else branch itself (not under a condition)
+    top = any(a is assigns[0] for a in ifs[0].orelse)
+    # nothing between the if and the loop rebinds listeners
+    between = f.body[f.body.index(ifs[0]) + 1:f.body.index(loop)]
+    rebinding = any(isinstance(t, ast.Name) and t.id == 'listeners'
+                    for n in between for a in walk_type(n, ast.Assign) for t in a.targets)
+    return 'bool', cbool(fresh and top and not rebinding)
+
+
 FACTS = [announce_in_updateLock, updateLock_is_rlock_per_module, store_then_notify, notify_only_if_exported,
          changed_includes_readerror, repeated_error_test, omit_test, read_wrapper_routes, write_wrapper_routes,
          assignment_routes, make_update_reads_cache, announce_update_broadcasts, update_unchanged_codes,
-         omit_resolution, err_table, error_eq_ignores_methods]
+         omit_resolution, err_table, error_eq_ignores_methods, activate_registers_first, snapshot_in_updateLock,
+         broadcast_iterates_private_copy]
 
 FINGERPRINTS = {
     'Module.announceUpdate': _announce,
@@ -269,4 +373,10 @@ FINGERPRINTS = {
     'SECoPError.format': lambda: find_func(find_class(parse(ER), 'SECoPError'), 'format'),
     'SECoPError.__eq__': lambda: find_func(find_class(parse(ER), 'SECoPError'), '__eq__'),
     'errors.secop_error': lambda: find_func(parse(ER), 'secop_error'),
+    'Dispatcher.handle_activate': lambda: _disp_func('handle_activate'),
+    'Dispatcher.handle_deactivate': lambda: _disp_func('handle_deactivate'),
+    'Dispatcher.subscribe': lambda: _disp_func('subscribe'),
+    'Dispatcher.unsubscribe': lambda: _disp_func('unsubscribe'),
+    'Dispatcher.reset_connection': lambda: _disp_func('reset_connection'),
+    'Dispatcher.remove_connection': lambda: _disp_func('remove_connection'),
 }
